@@ -293,3 +293,34 @@ let () =
       let w = (try p_wlevel (the_slevel ()) toks with Parse m -> failwith ("parse: " ^ m)) in
       string_of_z (over_size !cur_be (the_msg ()) w (bytes_of_hex bg))
       | _ -> failwith "oversize")
+
+(* ---- Msg.enc_message: the reference encoder over value trees with explicit
+   (wire) block contents: V <blockhex> ng (g <dimbg> ne V*ne)*ng nd hex*nd ---- *)
+let rec p_vlevel toks : vlevel =
+  expect toks "V";
+  let block = bytes_of_hex (next toks) in
+  let ng = p_int toks in
+  let gs = p_vgroups ng toks in
+  let nd = p_int toks in
+  let ds = p_list nd (fun t -> bytes_of_hex (next t)) toks in
+  VLevel (block, gs, ds)
+and p_vgroups n toks : vgroups =
+  if n = 0 then VGNil else begin
+    expect toks "g";
+    let bg = bytes_of_hex (next toks) in
+    let ne = p_int toks in
+    let es = p_ventries ne toks in
+    let rest = p_vgroups (n - 1) toks in
+    VGCons (bg, es, rest)
+  end
+and p_ventries n toks : ventries =
+  if n = 0 then VENil else
+    let e = p_vlevel toks in
+    let r = p_ventries (n - 1) toks in VECons (e, r)
+
+let () =
+  register "encv" (function hdrbg :: rest ->
+      let toks = ref rest in
+      let v = (try p_vlevel toks with Parse m -> failwith ("parse: " ^ m)) in
+      hex_of_bytes (enc_message !cur_be (the_msg ()) (bytes_of_hex hdrbg) v)
+      | _ -> failwith "encv")
